@@ -52,7 +52,8 @@ type ChanObj struct {
 
 // ---- memory objects
 
-const objShift = 20
+const objShift = 32
+const bigObj = 1 << 20 // objects at least this large keep their bytes in a sparse map
 const objMaxSize = 1 << objShift
 const handleBase = uint64(1) << 54
 
@@ -67,6 +68,8 @@ type Obj struct {
 	shared bool // visible to more than one thread
 	user   bool // came from the tracking allocator
 	site   string
+	sparse map[int]*Term // big objects only
+	fill   *Term         // big objects: content of bytes never written (nil = zero)
 	gen    int // state generation that owns this copy (copy-on-write across states)
 }
 
@@ -80,11 +83,57 @@ func (st *State) wobj(o *Obj) *Obj {
 	if o.bytes != nil {
 		n.bytes = append([]*Term(nil), o.bytes...)
 	}
+	if o.sparse != nil {
+		n.sparse = make(map[int]*Term, len(o.sparse))
+		for k, v := range o.sparse {
+			n.sparse[k] = v
+		}
+	}
 	st.objs[o.id] = &n
 	return &n
 }
 
+func (o *Obj) setByte(i int, b *Term) {
+	if o.size >= bigObj {
+		if o.sparse == nil {
+			o.sparse = map[int]*Term{}
+		}
+		if o.fill == nil && (b == nil || (b.IsConst() && b.C == 0)) {
+			delete(o.sparse, i)
+		} else {
+			o.sparse[i] = b
+		}
+		return
+	}
+	if b != nil && b.IsConst() && b.C == 0 {
+		b = nil
+	}
+	if o.bytes == nil {
+		if b == nil {
+			return
+		}
+		o.bytes = make([]*Term, o.size)
+	}
+	o.bytes[i] = b
+}
+
+func (o *Obj) getByte(i int) *Term {
+	if o.size >= bigObj {
+		if b, ok := o.sparse[i]; ok {
+			return b
+		}
+		return o.fill
+	}
+	if o.bytes == nil {
+		return nil
+	}
+	return o.bytes[i]
+}
+
 func (o *Obj) ensure() {
+	if o.size >= bigObj {
+		return
+	}
 	if o.bytes == nil {
 		o.bytes = make([]*Term, o.size)
 	}
@@ -97,7 +146,7 @@ var sizes = types.SizesFor("gc", "amd64")
 func sizeof(T types.Type) int { return int(sizes.Sizeof(T)) }
 
 func (st *State) newObj(size int, kind, label string) *Obj {
-	if size >= objMaxSize {
+	if size < 0 || size >= objMaxSize {
 		st.abort(abUnsupported, fmt.Sprintf("object too large: %d bytes (%s)", size, label))
 	}
 	o := &Obj{id: len(st.objs), size: size, gen: st.gen, kind: kind, label: label, owner: st.curThreadID()}
@@ -129,10 +178,7 @@ func (st *State) resolve(addr uint64, n int, what string) (*Obj, int) {
 }
 
 func (st *State) byteAt(o *Obj, off int) *Term {
-	if o.bytes == nil {
-		return st.zero8
-	}
-	if b := o.bytes[off]; b != nil {
+	if b := o.getByte(off); b != nil {
 		return b
 	}
 	return st.zero8
@@ -156,19 +202,13 @@ func (st *State) storeBits(addr uint64, n int, v *Term) {
 	o, off := st.resolve(addr, n, "store")
 	o = st.wobj(o)
 	st.noteAccess(o, off, n, true)
-	if o.bytes == nil {
+	if o.size < bigObj && o.bytes == nil {
 		if v.IsConst() && v.C == 0 {
 			return
 		}
-		o.bytes = make([]*Term, o.size)
 	}
 	for i := 0; i < n; i++ {
-		b := st.c.Extract(v, 8*i+7, 8*i)
-		if b.IsConst() && b.C == 0 {
-			o.bytes[off+i] = nil
-		} else {
-			o.bytes[off+i] = b
-		}
+		o.setByte(off+i, st.c.Extract(v, 8*i+7, 8*i))
 	}
 }
 
@@ -510,7 +550,7 @@ func (st *State) constString(s string) StrV {
 	o.owner = -1
 	for i := 0; i < len(s); i++ {
 		if s[i] != 0 {
-			o.bytes[i] = st.c.Const(8, uint64(s[i]))
+			o.setByte(i, st.c.Const(8, uint64(s[i])))
 		}
 	}
 	v := StrV{st.ptrTo(o, 0), st.c.Const(64, uint64(len(s)))}
